@@ -17,24 +17,30 @@ import (
 // it is the obvious place for map-order dependent output.
 
 type adaptorSpec struct {
-	Methods []int    // indices into adaptorMethods
-	Fields  []string // keys of ExtendsWith, in source order
+	Methods []int    // indices into adaptorMethods: the methods of the adapted interface Svc
+	Fields  []string // keys of ExtendsWith, in source order (variant ExtendsWith)
+	Options int      // variant Options: number of methods of interface Extra, each with an ImplOption delegating to the single ExtendsWith field
 	Self    bool
 }
 
 var adaptorMethods = []string{"Hello() string", "Close() error", "Count(n int) int", "Put(key string, value []byte)"}
 var adaptorFieldNames = []string{"Alpha", "Beta", "Gamma", "Delta", "Eps", "Zeta", "Eta", "Theta", "Iota", "Kappa"}
+var extraMethods = []string{"M1() error", "M2(n int) int", "M3(s string)", "M4() string", "M5() bool", "M6(a, b int) (int, error)", "M7() []string"}
 
-func genAdaptor() *rapid.Generator[adaptorSpec] {
+func genAdaptor(options bool) *rapid.Generator[adaptorSpec] {
 	return rapid.Custom(func(t *rapid.T) adaptorSpec {
 		var s adaptorSpec
 		nm := rapid.IntRange(1, len(adaptorMethods)).Draw(t, "methods")
 		for i := 0; i < nm; i++ {
 			s.Methods = append(s.Methods, i)
 		}
-		nf := rapid.IntRange(1, 9).Draw(t, "fields")
-		names := rapid.Permutation(adaptorFieldNames).Draw(t, "names")
-		s.Fields = append(s.Fields, names[:nf]...)
+		if options {
+			s.Options = rapid.IntRange(1, len(extraMethods)).Draw(t, "options")
+		} else {
+			nf := rapid.IntRange(1, 9).Draw(t, "fields")
+			names := rapid.Permutation(adaptorFieldNames).Draw(t, "names")
+			s.Fields = append(s.Fields, names[:nf]...)
+		}
 		s.Self = rapid.Bool().Draw(t, "self")
 		return s
 	})
@@ -48,6 +54,13 @@ func (s adaptorSpec) render() string {
 		w.WriteString("\t" + adaptorMethods[m] + "\n")
 	}
 	w.WriteString("}\n\n")
+	if s.Options > 0 {
+		w.WriteString("type Extra interface {\n")
+		for _, m := range extraMethods[:s.Options] {
+			w.WriteString("\t" + m + "\n")
+		}
+		w.WriteString("}\n\n")
+	}
 	for i := range s.Fields {
 		fmt.Fprintf(&w, "type T%d struct{}\n\n", i+1)
 	}
@@ -59,18 +72,40 @@ func (s adaptorSpec) render() string {
 	for i, f := range s.Fields {
 		fmt.Fprintf(&w, "\t\t%q: genfp.TypeOf[T%d](),\n", f, i+1)
 	}
-	w.WriteString("\t},\n}\n")
+	if s.Options > 0 {
+		w.WriteString("\t\t\"Extra\": genfp.TypeOf[Extra](),\n")
+	}
+	w.WriteString("\t},\n")
+	if s.Options > 0 {
+		w.WriteString("\tOptions: []genfp.ImplOption{\n")
+		for _, m := range extraMethods[:s.Options] {
+			fmt.Fprintf(&w, "\t\t{Method: Extra.%s, Delegate: genfp.Delegate{Field: \"Extra\"}},\n", m[:strings.IndexByte(m, '(')])
+		}
+		w.WriteString("\t},\n")
+	}
+	w.WriteString("}\n")
 	return w.String()
 }
 
 func adaptorCheck(t *testing.T, env *scratchEnv) {
-	kit.Check(t, "scratch/adaptor-determinism",
-		"scratch package `pa` with one interface (1-4 methods) and one `// @fp.Generate` genfp.GenerateAdaptor directive whose ExtendsWith map has 1-9 entries (names permuted), Self drawn; gombok (built from the tree) run on three identical copies with GOMAXPROCS=1/16/default and once more on top of its own output; non-trivial iff gombok accepted the package and wrote >= 1 non-empty file; distinct by source text",
-		kit.Opt{Weight: 0.5, MinChecks: 2, HangAfter: 20 * time.Minute},
+	common := "; gombok (built from the tree) run on three identical copies with GOMAXPROCS=1/16/default and once more on top of its own output; non-trivial iff gombok accepted the package and wrote >= 1 non-empty file; distinct by source text"
+	kit.Check(t, "scratch/adaptor-extendswith",
+		"scratch package `pa` with one interface (1-4 methods) and one `// @fp.Generate` genfp.GenerateAdaptor directive whose ExtendsWith map has 1-9 entries (names permuted), Self drawn"+common,
+		kit.Opt{Weight: 0.5, MinChecks: 1, HangAfter: 20 * time.Minute},
 		func(rt *rapid.T, rec *kit.Rec) {
-			spec := genAdaptor().Draw(rt, "adaptor")
-			env.decide(rt, rec, "C13|adaptor", spec.render(), func() {
+			spec := genAdaptor(false).Draw(rt, "adaptor")
+			env.decide(rt, rec, "C13|adaptor.ExtendsWith", spec.render(), func() {
 				rec.Label(fmt.Sprintf("extends-with:%d", len(spec.Fields)))
+				rec.Label(fmt.Sprintf("methods:%d", len(spec.Methods)))
+			})
+		})
+	kit.Check(t, "scratch/adaptor-options",
+		"scratch package `pa` with one interface (1-4 methods) and one `// @fp.Generate` genfp.GenerateAdaptor directive with a single ExtendsWith field of a second interface (1-7 methods) and one ImplOption per method of that interface delegating to the field, Self drawn"+common,
+		kit.Opt{Weight: 0.5, MinChecks: 1, HangAfter: 20 * time.Minute},
+		func(rt *rapid.T, rec *kit.Rec) {
+			spec := genAdaptor(true).Draw(rt, "adaptor")
+			env.decide(rt, rec, "C13|adaptor.Options", spec.render(), func() {
+				rec.Label(fmt.Sprintf("options:%d", spec.Options))
 				rec.Label(fmt.Sprintf("methods:%d", len(spec.Methods)))
 			})
 		})
